@@ -276,9 +276,12 @@ func (wr *Writer) tightMap(rv reflect.Value, si *sinfo) {
 	comma := false
 	for _, kv := range keys {
 		rm := rv.MapIndex(kv)
+		if rm.Kind() == reflect.Interface && rm.IsNil() && (wr.OmitNil || wr.OmitEmpty) {
+			continue
+		}
 		if rm.Kind() == reflect.Ptr {
 			if rm.IsNil() {
-				if wr.OmitNil {
+				if wr.OmitNil || wr.OmitEmpty {
 					continue
 				}
 			} else {
